@@ -79,6 +79,9 @@ fn parse_unit(i: &str) -> IResult<&str, Unit> {
     alt((
         map(tag("ms"), |_| Unit::Millisecond),
         map(tag("us"), |_| Unit::Microsecond),
+        // U+00B5 (micro sign, what format_duration prints) and U+03BC (Greek mu), as in Go
+        map(tag("\u{b5}s"), |_| Unit::Microsecond),
+        map(tag("\u{3bc}s"), |_| Unit::Microsecond),
         map(tag("ns"), |_| Unit::Nanosecond),
         map(char('h'), |_| Unit::Hour),
         map(char('m'), |_| Unit::Minute),
